@@ -25,7 +25,7 @@ JOBS = [
     ("lexer", "MCLexer", "MCLexer_E.cfg", dict(workers=8, cache_key="v1", keep_tags=["CASE"], xmx="16g")),
     ("lexer", "LexRefine", "LexRefine_pairs.cfg", dict(workers=8, xss="512m", cache_key="refine", lib="lexemes", keep_tags=set())),
     ("analyzer", "MCAnalyzer", "MCAnalyzer_sim.cfg", dict(workers=1, xss="512m", simulate=80, depth=14, seed=1, keep_tags={"CASE"}, cache_key="sim-80-1")),
-    ("gramrefine", "GramRefine", "GramRefine.cfg", dict(workers=4, xss="1g", xmx="12g", lib=["grammar", "lexer", "pgrammar", "events"], cache_key="v1", keep_tags=set())),
+    ("gramrefine", "GramRefine", "GramRefine.cfg", dict(workers=8, xss="1g", xmx="12g", lib=["grammar", "lexer", "pgrammar", "events"], cache_key="v1", keep_tags=set())),
     ("literals", "LiteralsGen", "LiteralsGen.cfg", dict(workers=1, xss="1g", cache_key="lit", keep_tags={"CASE", "COUNT"})),
 ]
 for d, m, c, kw in JOBS:
